@@ -96,6 +96,26 @@ def load_known(pid):
 
 
 def run_property(pid, tier='quick', seed=0, only=None, jobs=None):
+    """One property; every temporary file of the run (rule files, scratch budgets, solver scripts, node programs - also those
+    of the workers, which end with os._exit) lives under one scratch directory that is removed afterwards."""
+    import shutil
+    import tempfile
+    scratch = tempfile.mkdtemp(prefix='verif_run_%s_' % pid)
+    saved = os.environ.get('TMPDIR')
+    os.environ['TMPDIR'] = scratch
+    tempfile.tempdir = None
+    try:
+        return _run_property(pid, tier, seed, only, jobs)
+    finally:
+        if saved is None:
+            os.environ.pop('TMPDIR', None)
+        else:
+            os.environ['TMPDIR'] = saved
+        tempfile.tempdir = None
+        shutil.rmtree(scratch, ignore_errors=True)
+
+
+def _run_property(pid, tier='quick', seed=0, only=None, jobs=None):
     t_start = time.time()
     mod_name = 'harness.' + pid
     sys.path.insert(0, ROOT)
